@@ -65,8 +65,30 @@ func (c *Client) point(kind, arg string, size int64) (Point, string) {
 	c.n++
 	p := Point{Index: c.n, Kind: kind, Arg: arg, Size: size}
 	p.Dev = c.Plan[c.n]
+	if p.Dev == "transient" {
+		// kind not known in advance (free-running daemon mode): the plain transient failure of whatever call this is
+		if kind == "list" || kind == "open" {
+			p.Dev = "err"
+		} else {
+			p.Dev = "fail-before"
+		}
+	}
 	c.Points = append(c.Points, p)
 	return p, p.Dev
+}
+
+// SetPlan replaces the deviation plan (safe while other goroutines keep calling).
+func (c *Client) SetPlan(p map[int]string) {
+	c.mu.Lock()
+	defer c.mu.Unlock()
+	c.Plan = p
+}
+
+// Snapshot returns a copy of the calls seen so far (safe while other goroutines keep calling).
+func (c *Client) Snapshot() []Point {
+	c.mu.Lock()
+	defer c.mu.Unlock()
+	return append([]Point(nil), c.Points...)
 }
 
 func (c *Client) done(p Point, err error) {
